@@ -290,6 +290,10 @@ func TestC46(t *testing.T) {
 		{"runstart", "fire", "dialdrop", "runstart", "runstop"},                             // C46-2: Connect succeeds, peer drops before the tail
 		{"runstart", "fire", "dialfail", "fire", "dialfail", "fire", "dialfail", "fire", "dialfail"}, // growing backoff
 		{"conn", "runstart", "runstop", "disc", "runstart", "stop", "conn", "disc", "runstart", "runstop"},
+		// 18 consecutive failed dials: the backoff reaches the 10-minute cap and its jitter band
+		{"runstart", "fire", "dialfail", "fire", "dialfail", "fire", "dialfail", "fire", "dialfail", "fire", "dialfail", "fire", "dialfail",
+			"fire", "dialfail", "fire", "dialfail", "fire", "dialfail", "fire", "dialfail", "fire", "dialfail", "fire", "dialfail",
+			"fire", "dialfail", "fire", "dialfail", "fire", "dialfail", "fire", "dialfail", "fire", "dialfail", "fire", "dialfail"},
 	}
 	n := e.Pick(600, 12000)
 	for i := 0; i < n; i++ {
